@@ -125,24 +125,42 @@ def _visitor_self(ix, vis, env, stack, seen):
     return so
 
 
+def _scope(label):
+    """Scope stub; the scopes around it are other objects (a handler that installs one of them installs the wrong scope)."""
+    o = Obj(label, flag_default=False)
+    for a in ('outer_scope', 'parent_scope'):
+        o.attrs[a] = Obj('%s of the %s' % (a, label), flag_default=False)
+    return o
+
+
 def _scope_stub(cls, attr, scope, has_local):
     others = {}
     for a in ('local_scope', 'expr_scope', 'scope'):
         if a != attr:
-            others[a] = Obj('node.%s (another scope of the node)' % a, flag_default=False)
-    entry = Obj('entry', flag_default=False, scope=Obj('scope the node is declared in', flag_default=False))
+            others[a] = _scope('node.%s (another scope of the node)' % a)
+    entry = Obj('entry', flag_default=False, scope=_scope('scope the node is declared in'))
     return Obj(cls.name, flag_default=False, entry=entry, name='f', has_local_scope=has_local, **dict(others, **{attr: scope}))
 
 
 def run_scope_handler(ix, vis, owner, fn, cls, attr, scope, has_local=True):
     """-> (scopes `self.env` held at each visit of the children, scope afterwards, incoming scope)"""
-    outer = Obj('enclosing scope', flag_default=False)
+    outer = _scope('enclosing scope')
     stack, seen = [], []
     so = _visitor_self(ix, vis, outer, stack, seen)
     node = _scope_stub(cls, attr, scope, has_local)
     ev = LoopEval(ix)
     ev.call(Method(RepoFn(owner.module, fn, owner), so), [node])
     return seen, so.attrs['env'], outer
+
+
+def _scope_problem(seen, after, want, outer):
+    if not seen:
+        return 'does not visit the children'
+    if not all(x is want for x in seen):
+        return 'visits the children with self.env = %s' % ', '.join(sorted({_label(x) for x in seen if x is not want}))
+    if after is not outer:
+        return 'leaves self.env = %s behind' % _label(after)
+    return None
 
 
 def scope_table(ix, vis):
@@ -169,7 +187,7 @@ def scope_table(ix, vis):
             if h is None:
                 raise AnalysisError('no handler of %s for %s' % (vis.name, cls.name))
             k, owner, fn = h
-            local = Obj('node.%s (the scope %s infers)' % (attr, where), flag_default=False)
+            local = _scope('node.%s (the scope %s infers)' % (attr, where))
             scenarios = []
             reached = site_reaches(ix, site_owner, site_fn, cls, attr)
             if reached is None:
@@ -188,15 +206,7 @@ def scope_table(ix, vis):
                 except IndexError:
                     rows.append((cls, attr, fn, what, where, 'pops an empty scope stack'))
                     continue
-                want = local if scope is not None else outer
-                problem = None
-                if not seen:
-                    problem = 'does not visit the children'
-                elif not all(x is want for x in seen):
-                    problem = 'visits the children with self.env = %s' % ', '.join(sorted({_label(x) for x in seen if x is not want}))
-                elif after is not outer:
-                    problem = 'leaves self.env = %s behind' % _label(after)
-                rows.append((cls, attr, fn, what, where, problem))
+                rows.append((cls, attr, fn, what, where, _scope_problem(seen, after, local if scope is not None else outer, outer)))
     return rows, infos
 
 
@@ -209,7 +219,7 @@ def _module_rows(ix, vis, base, attr, where, infos):
     if owner is not vis and not any(k is owner for k in ix.mro(vis) if k.module is vis.module):
         infos.append('%s.__call__ is inherited from %s: no scope is installed for the module (module globals are Python objects)' % (vis.name, owner.name))
         return []
-    scope = Obj('root.%s (the scope %s infers)' % (attr, where), flag_default=False)
+    scope = _scope('root.%s (the scope %s infers)' % (attr, where))
     root = _scope_stub(base, attr, scope, True)
     stack, seen = [], []
     so = _visitor_self(ix, vis, None, stack, seen)
@@ -228,12 +238,8 @@ def _module_rows(ix, vis, base, attr, where, infos):
     except Unsupported as e:
         infos.append('%s.__call__ cannot be evaluated (%s): the scope of the module is not followed' % (vis.name, e))
         return []
-    problem = None
-    if not seen:
-        problem = 'does not visit the children'
-    elif not all(x is scope for x in seen):
-        problem = 'visits the children with self.env = %s' % ', '.join(sorted({_label(x) for x in seen if x is not scope}))
-    return [(base, attr, fn, 'root', where, problem)]
+    # the scope stays installed after the run: nothing follows the root
+    return [(base, attr, fn, 'root', where, _scope_problem(seen, None, scope, None))]
 
 
 _PC_INFSCOPE = '''
@@ -279,7 +285,7 @@ def rule_infscope(ctx, floor=13):
     so.attrs['visitchildren'] = lambda n, *a, **kw: seen.append(so.attrs['env'])
     so.attrs['visit_safe_node'] = Method(RepoFn(vis.module, fns['visit_safe_node']), so)
     LoopEval(ix).call(Method(RepoFn(vis.module, fns['visit_safe_node']), so), [Obj('ComprehensionNode', flag_default=False, expr_scope=inner)])
-    r.positive_control(seen == [outer] and inner is not outer, 'scoped expression visited by the default handler keeps the enclosing scope')
+    r.positive_control(_scope_problem(seen, so.attrs['env'], inner, outer) is not None, 'scoped expression visited by the default handler keeps the enclosing scope')
     return r
 
 
@@ -456,6 +462,12 @@ class ItemDomain:
         return res[0]
 
     # ---- item kinds: (label, Python type of the value, inferred type, string literal?, one character?)
+    # a C type can hold the value of a number, a bool or ONE character; it cannot hold a longer string, a bytes object or an arbitrary object
+    @staticmethod
+    def c_representable(kind):
+        label, pytype, typ, is_str, one = kind
+        return pytype in ('int', 'float', 'bool') or (pytype == 'str' and one)
+
     def item_kinds(self):
         b, c = self.builtin, self.c
         return [
@@ -497,7 +509,7 @@ class ItemDomain:
 
 
 def item_scenarios(dom):
-    """-> [(key, description, base stub, index stub, set of Python types the item may have (None in the set = unknown object), may be None?)]"""
+    """-> [(key, base stub, index stub, set of Python types the item may have (None in the set = unknown object), may be None?, items no C type can hold)]"""
     out = []
     kinds = dom.item_kinds()
     for ctype in ('tuple', 'list', 'set'):
@@ -511,24 +523,25 @@ def item_scenarios(dom):
             for suffix, its, has_none in variants:
                 for const in ((False,) if ctype == 'set' else (False, True)):
                     nodes = [dom.none_item() if i is None else dom.item(i) for i in its]
-                    pytypes = {i[1] for i in its if i is not None}
-                    first = its[0][1]
+                    read = its[:1] if const else [i for i in its if i is not None]         # the items the index may select
+                    pytypes = {i[1] for i in read}
+                    no_c = sorted({i[0] for i in read if not dom.c_representable(i)})
                     idx = dom.index(const)
                     key = '%s of %s%s [%s]' % (ctype, k[0], suffix, idx.label)
-                    out.append((key, dom.literal(ctype, nodes), idx, {first} if const else pytypes, has_none and not const))
+                    out.append((key, dom.literal(ctype, nodes), idx, pytypes, has_none and not const, no_c))
                     if ctype == 'tuple' and not suffix:
                         # tuples are immutable: a variable with one assignment of a literal is followed to the literal
                         key = 'tuple variable assigned once (%s) [%s]' % (k[0], idx.label)
-                        out.append((key, dom.variable('tuple', dom.literal('tuple', nodes)), idx, {first} if const else pytypes, False))
+                        out.append((key, dom.variable('tuple', dom.literal('tuple', nodes)), idx, pytypes, False, no_c))
     for ctype in ('tuple', 'list'):
-        out.append(('%s variable, items unknown' % ctype, dom.variable(ctype), dom.index(False), {None}, True))
-    out.append(('str object', dom.variable('str'), dom.index(False), {'str'}, False))
-    out.append(('bytes object', dom.variable('bytes'), dom.index(False), {'int'}, False))
-    out.append(('bytearray object', dom.variable('bytearray'), dom.index(False), {'int'}, False))
+        out.append(('%s variable, items unknown' % ctype, dom.variable(ctype), dom.index(False), {None}, True, ['untyped value']))
+    out.append(('str object', dom.variable('str'), dom.index(False), {'str'}, False, []))
+    out.append(('bytes object', dom.variable('bytes'), dom.index(False), {'int'}, False, []))
+    out.append(('bytearray object', dom.variable('bytearray'), dom.index(False), {'int'}, False, []))
     return out
 
 
-def item_verdict(dom, res, pytypes, maybe_none):
+def item_verdict(dom, res, pytypes, maybe_none, no_c=()):
     """None if a variable of type `res` keeps every item as it is, else what goes wrong."""
     if not isinstance(res, Obj):
         return 'answers %r, which is not a type' % (res,)
@@ -545,6 +558,8 @@ def item_verdict(dom, res, pytypes, maybe_none):
         return 'answers %s, a C type this rule has no conversion for' % res.label
     if maybe_none:
         return 'answers %s although an item may be None' % res.label
+    if no_c:
+        return 'answers %s although no C type can hold a %s' % (res.label, ' / '.join(no_c))
     bad = sorted(str(p) for p in pytypes if p != back)
     if bad:
         return 'answers %s, which comes back as a Python %s, for items that are %s objects' % (res.label, back, ' / '.join('arbitrary' if p == 'None' else p for p in bad))
@@ -553,7 +568,7 @@ def item_verdict(dom, res, pytypes, maybe_none):
 
 def item_table(dom, cls, fn, scenarios, mode=None):
     rows = []
-    for key, base, idx, pytypes, maybe_none in scenarios:
+    for key, base, idx, pytypes, maybe_none, no_c in scenarios:
         ev = ItemEval(dom.ix, overrides=dom.overrides)
         env = Obj('scope', flag_default=False, directives={'infer_types': mode})
         node = Obj('IndexNode', cls=cls, flag_default=False, base=base, index=idx, pos=None)
@@ -561,7 +576,7 @@ def item_table(dom, cls, fn, scenarios, mode=None):
             res = ev.call(Method(RepoFn(cls.module, fn, cls), node), [env])
         except Unsupported as e:
             raise AnalysisError('%s.%s cannot be evaluated for %s: %s' % (cls.name, fn.name, key, e))
-        rows.append((key, res, item_verdict(dom, res, pytypes, maybe_none)))
+        rows.append((key, res, item_verdict(dom, res, pytypes, maybe_none, no_c)))
     return rows
 
 
@@ -601,8 +616,8 @@ def rule_itemtype(ctx, floor=110):
     sc = [s for s in scenarios if s[0].startswith('tuple of one-byte bytes literal [index of unknown')]
     if len(sc) != 1:
         raise AnalysisError('C40-ITEMTYPE: scenario for the embedded example not found')
-    key, base, idx, pytypes, maybe_none = sc[0]
+    key, base, idx, pytypes, maybe_none, no_c = sc[0]
     ev = ItemEval(ix, overrides=dom.overrides)
     res = ev.call(Method(RepoFn(cls.module, pfn, None), Obj('IndexNode', flag_default=False, base=base, index=idx)), [Obj('scope', flag_default=False, directives={'infer_types': None})])
-    r.positive_control(item_verdict(dom, res, pytypes, maybe_none) is not None, 'bytes literals inferred as unsigned char')
+    r.positive_control(item_verdict(dom, res, pytypes, maybe_none, no_c) is not None, 'bytes literals inferred as unsigned char')
     return r
